@@ -16,11 +16,9 @@
 (*   rls[p]     = [top, init]                                              *)
 (* S: alive, vals, sz, rl, rmode, cmode                                    *)
 (***************************************************************************)
-EXTENDS Expr, Sequences, FiniteSets
+EXTENDS Expr, Sequences, FiniteSets, SequencesExt
 
 Failed(c) == {n \in DOMAIN c : ~c[n]}
-Restrict(f, D) == [x \in D |-> f[x]]
-Range(f) == {f[x] : x \in DOMAIN f}
 SeqSet(s) == {s[i] : i \in 1..Len(s)}
 
 EmptyState == [alive |-> {}, vals |-> << >>, sz |-> << >>, rl |-> << >>, rmode |-> << >>, cmode |-> << >>]
@@ -97,6 +95,41 @@ TotalBits(W, S, call) ==
   IN Sum(used)
 Small(W, S, call) == TotalBits(W, S, call) <= 12 /\ UsedSizes(W, S, SeqSet(call.roots)) = {}
 
+(* ----------------------------- soft constraints (C05) -------------------- *)
+\* enabled static blocks of the used-random objects of a call
+EnabledBlocks(W, S, call) ==
+  LET objs == UsedObjs(W, S, SeqSet(call.roots)) IN
+  {ob \in UNION {{<<o, b>> : b \in StaticBlockNames(W, W.objs[o].cls)} : o \in objs} : S.cmode[CKey(ob[1], ob[2])]}
+\* applicable soft constraints: [own, blk, idx, inl, sf] with sf = [g: guards, e]
+SoftItems(W, S, call) ==
+  LET cls == UNION {LET sfs == SoftsOf(FindBlock(W, W.objs[ob[1]].cls, ob[2]).body, << >>) IN
+                    {[own |-> ob[1], blk |-> ob[2], idx |-> i, inl |-> FALSE, sf |-> sfs[i]] : i \in 1..Len(sfs)}
+                    : ob \in EnabledBlocks(W, S, call)}
+      isf == SoftsOf(call.inline, << >>)
+      inl == {[own |-> call.owner, blk |-> "", idx |-> i, inl |-> TRUE, sf |-> isf[i]] : i \in 1..Len(isf)}
+  IN cls \cup inl
+\* documented priority: b is stated later in the same block than a, or b is inline and a class-level
+Higher(a, b) == \/ (~a.inl /\ b.inl)
+                \/ (a.inl = b.inl /\ a.own = b.own /\ a.blk = b.blk /\ a.idx < b.idx)
+\* ord lists the items in the order they are honoured (descending priority): a linear extension
+Respects(ord) == \A i, j \in 1..Len(ord) : i < j => ~Higher(ord[i], ord[j])
+PosIn(ord, x) == CHOOSE i \in 1..Len(ord) : ord[i] = x
+
+SoftAccept(W, S, call, post) ==
+  LET items == SoftItems(W, S, call)
+      holds(it, e) == SoftHolds(Ctx(W, S, e, S.sz, it.own), it.sf)
+  IN IF items = {} THEN TRUE
+     ELSE IF \E it \in items : holds(it, post) = "U" THEN TRUE          \* open zone
+     ELSE LET K == {it \in items : holds(it, post) = "T"}
+              V == items \ K
+              SolH == Sol(W, S, call, S.vals)
+              SatAll(X) == {e \in SolH : \A it \in X : holds(it, e) = "T"}
+          IN V = {}
+             \/ /\ \A v \in V : SatAll(K \cup {v}) = {}                                  \* maximal
+                /\ \E ord \in SetToSeqs(items) :                                          \* later / inline wins
+                      /\ Respects(ord)
+                      /\ \A v \in V : SatAll({k \in K : PosIn(ord, k) < PosIn(ord, v)} \cup {v}) = {}
+
 SzElems(W, ls) == UNION {{ElemPath(l, i) : i \in 0..W.lists[l].cap} : l \in ls}
 
 (* ------------------------------ projection ----------------------------- *)
@@ -138,7 +171,7 @@ ConstructEffect(W, S, ev) ==
       cmode |-> [k \in UNION {{CKey(p, b) : b \in BlockNames(W, W.objs[p].cls)} : p \in ob} |-> TRUE] @@ S.cmode]
 ConstructClauses(W, S, ev) ==
   [ not_yet_alive   |-> ev.o \notin S.alive,
-    no_exception    |-> ev.exc = "none",
+    no_exception    |-> IF "fired" \in DOMAIN ev /\ ev.fired THEN ev.exc = "Injected" ELSE ev.exc = "none",
     init_projection |-> ev.exc = "none" => ev.post = Proj(ConstructEffect(W, S, ev)),
     idle_after      |-> Idle(ev.stk) ]
 
@@ -195,6 +228,10 @@ ListClauses(W, S, ev) ==
 \* values as the solver sees them: the pre-state with the assignments made by pre_randomize callbacks
 AfterPre(S, ev) == IF "mid" \in DOMAIN ev THEN ev.mid ELSE Proj(S)
 
+\* a user exception injected by the scenario fired during this event (C16)
+Fired(ev) == "fired" \in DOMAIN ev /\ ev.fired
+FaultPh(ev) == IF Fired(ev) THEN ev.fault.ph ELSE "none"
+
 CallClauses(W, S, ev) ==
   LET call  == ev.call
       roots == SeqSet(call.roots)
@@ -207,7 +244,8 @@ CallClauses(W, S, ev) ==
   IN
   [ roots_alive        |-> \A r \in roots : (r \in DOMAIN W.objs => W.objs[r].top \in S.alive),
     pre_is_spec_state  |-> ev.pre = Proj(S),
-    outcome_known      |-> ev.exc \in {"none", "SolveFailure"},                                  \* C02
+    outcome_known      |-> IF Fired(ev) THEN ev.exc = "Injected"
+                           ELSE ev.exc \in {"none", "SolveFailure"},                              \* C02, C16
     mid_only_by_callbacks |-> (CbSeq(ev, "pre") = << >>) => mid = Proj(S),
     nonrand_frozen     |-> /\ DOMAIN ev.post.v \ SzElems(W, usz)
                               = DOMAIN mid.v \ SzElems(W, usz)
@@ -216,17 +254,23 @@ CallClauses(W, S, ev) ==
                            /\ \A l \in DOMAIN mid.sz : l \notin usz => ev.post.sz[l] = mid.sz[l],
     in_type            |-> \A x \in DOMAIN ev.post.v : x \in used => InType(W, x, ev.post.v[x]),  \* C01
     ok_hard_hold       |-> ok => HardAll(W, Sm, call, ev.post.v, ev.post.sz) # "F",               \* C01
+    ok_soft_maximal    |-> (ok /\ Small(W, Sm, call)) => SoftAccept(W, Sm, call, ev.post.v),       \* C05
     fail_iff_unsat     |-> (ev.exc = "SolveFailure" /\ Small(W, Sm, call))
                                => ~DefSat(W, Sm, call, mid.v),                                   \* C02
     facade_consistent  |-> ok => \A l \in DOMAIN ev.post.sz :
                                {ElemPath(l, i - 1) : i \in 1..ev.post.sz[l]} \subseteq DOMAIN ev.post.v
                                \/ W.lists[l].isobj,                                                \* C04
     pre_once_each      |-> /\ NoDup(CbSeq(ev, "pre"))
-                           /\ CbObjs(ev, "pre") = pre_objs,                                        \* C17
-    post_once_each     |-> ok => /\ NoDup(CbSeq(ev, "post"))
-                                 /\ CbObjs(ev, "post") = pre_objs,
+                           /\ IF FaultPh(ev) \in {"pre", "body"}
+                              THEN CbObjs(ev, "pre") \subseteq pre_objs
+                              ELSE CbObjs(ev, "pre") = pre_objs,                                   \* C17
+    post_once_each     |-> /\ NoDup(CbSeq(ev, "post")) /\ CbObjs(ev, "post") \subseteq pre_objs
+                           /\ ok => CbObjs(ev, "post") = pre_objs,
+    post_only_after_ok_solve |-> (ev.exc = "SolveFailure" \/ FaultPh(ev) \in {"pre", "body"}) => CbSeq(ev, "post") = << >>,
     pre_before_post    |-> \A i, j \in 1..Len(ev.cbs) : (ev.cbs[i].ph = "post" /\ ev.cbs[j].ph = "pre") => j < i,
-    post_sees_final    |-> \A c \in SeqSet(CbSeq(ev, "post")) : c.seen = ev.post.v,
+    post_sees_final    |-> FaultPh(ev) = "none" => \A c \in SeqSet(CbSeq(ev, "post")) : c.seen = ev.post.v,
+    post_sees_solution |-> \A c \in SeqSet(CbSeq(ev, "post")) :
+                              HardAll(W, Sm, call, c.seen, ev.post.sz) # "F",
     idle_after         |-> Idle(ev.stk) ]                                                         \* C16
 CallEffect(W, S, ev) == [S EXCEPT !.vals = ev.post.v, !.sz = ev.post.sz]
 
